@@ -241,10 +241,11 @@ void NonPositiveVisitor::bvisit(const Number &x)
 {
     if (is_a_Complex(x)) {
         is_nonpositive_ = tribool::trifalse;
-    } else if (bool(x.is_positive())) {
-        is_nonpositive_ = tribool::trifalse;
-    } else {
+    } else if (bool(x.is_negative()) or bool(x.is_zero())) {
         is_nonpositive_ = tribool::tritrue;
+    } else {
+        // positive, NaN or complex infinity
+        is_nonpositive_ = tribool::trifalse;
     }
 }
 
@@ -365,10 +366,11 @@ void NonNegativeVisitor::bvisit(const Number &x)
 {
     if (is_a_Complex(x)) {
         is_nonnegative_ = tribool::trifalse;
-    } else if (bool(x.is_negative())) {
-        is_nonnegative_ = tribool::trifalse;
-    } else {
+    } else if (bool(x.is_positive()) or bool(x.is_zero())) {
         is_nonnegative_ = tribool::tritrue;
+    } else {
+        // negative, NaN or complex infinity
+        is_nonnegative_ = tribool::trifalse;
     }
 }
 
